@@ -34,7 +34,8 @@ def tla_set(xs, quote=True):
 def gen_cfg(locals_, doms, envlocals=(), rulevars=("lower",), envvars=ALL_VARS, targets=("T1",),
             codes=(550,), maxsrc=1, maxdst=1, maxdepth=0, maxmod=0, maxblocks=4, maxrules=1,
             maxkeys=1, maxentries=1, maxvals=1, maxdefects=0, defectodds=0, salts=(0,),
-            defaultlast=True, expected=False, baremaps=True, tail=""):
+            defaultlast=True, expected=False, baremaps=True, maxscopemods=1, tablekinds=("static",),
+            sendercap=99, tail=""):
     return """SPECIFICATION GSpec
 CONSTANTS
   Locals = %s
@@ -58,34 +59,48 @@ CONSTANTS
   Salts = %s
   DefaultLast = %s
   BareMaps = %s
+  MaxScopeMods = %d
+  TableKinds = %s
+  SenderCap = %d
   PrintExpected = %s
 CHECK_DEADLOCK FALSE
 %s""" % (tla_set(locals_), tla_set(doms), tla_set(envlocals), tla_set(rulevars), tla_set(envvars),
          tla_set(targets), tla_set(codes, False), maxsrc, maxdst, maxdepth, maxmod, maxblocks,
          maxrules, maxkeys, maxentries, maxvals, maxdefects, defectodds, tla_set(salts, False),
-         "TRUE" if defaultlast else "FALSE", "TRUE" if baremaps else "FALSE",
-         "TRUE" if expected else "FALSE", tail)
+         "TRUE" if defaultlast else "FALSE", "TRUE" if baremaps else "FALSE", maxscopemods,
+         tla_set(tablekinds), sendercap, "TRUE" if expected else "FALSE", tail)
 
 
 # bounds ---------------------------------------------------------------------
 # exhaustive, quick: one source-family block + default, one destination-family block + default
 NO_UPPER_ACE = ["lower", "upper", "nfc", "nfd", "alabel"]
-MC_QUICK = dict(locals_=["l1"], doms=["d1"], envlocals=["l2"], maxsrc=1, maxdst=1, maxblocks=4,
-                envvars=NO_UPPER_ACE)
+ALL_TABLES = ["static", "file", "regexp", "regexp_repl", "scripted"]
+# exhaustive: precedence - one source-family + one destination-family block per level; the domain (d3) has an
+# ordinary ASCII label in front of the internationalised one; tables are static or regexp match checks
+MC_QUICK = dict(locals_=["l1"], doms=["d3"], envlocals=["l2"], maxsrc=1, maxdst=1, maxblocks=4,
+                tablekinds=["static", "regexp"], envvars=NO_UPPER_ACE)
+# exhaustive: every table module (static, file, regexp with/without replacement, a scripted table whose
+# lookup of one listed key fails) with 1-2 keys, as the one source_in or the one destination_in block
+MC_TABLES = dict(locals_=["l1", "l2"], doms=["d1"], maxsrc=1, maxdst=1, maxblocks=1, maxkeys=2,
+                 tablekinds=ALL_TABLES, envvars=NO_UPPER_ACE)
 # exhaustive: incomplete configurations - two destination-family blocks (destination + destination_in),
 # one defect: default block missing / block without decision / handling directive next to blocks /
 # reject + deliver_to
 MC_DEFECT = dict(locals_=["l1"], doms=["d1"], envlocals=["l2"], maxsrc=0, maxdst=2, maxblocks=3,
-                 maxdefects=1, envvars=NO_UPPER_ACE)
+                 maxdefects=1, sendercap=2, envvars=NO_UPPER_ACE)
 # exhaustive: one rewrite map (full-address or local-part key, 1 value with or without domain) in every
 # scope, two domains routed by one destination-family block + default
 MC_REWRITE = dict(locals_=["l1"], doms=["d1", "d2"], maxsrc=0, maxdst=1, maxmod=1, maxblocks=2,
-                  envvars=NO_UPPER_ACE)
+                  sendercap=2, envvars=NO_UPPER_ACE)
 # exhaustive: two nested rewrite scopes, each 1-to-1 or 1-to-2 (pipeline-wide, source block, destination block)
 # over three addresses, so that an address lost or duplicated between two scopes is visible in the target sets
 MC_NESTED_RW = dict(locals_=["l1", "l2", "l3"], doms=["d1"], codes=[], maxsrc=0, maxdst=0, maxmod=2, maxvals=2,
-                    maxblocks=0, baremaps=False, envvars=NO_UPPER_ACE)
-MC_QUICK_ALL = [MC_QUICK, MC_DEFECT, MC_REWRITE, MC_NESTED_RW]
+                    maxblocks=0, baremaps=False, sendercap=2, envvars=NO_UPPER_ACE)
+# exhaustive: up to two `modify` directives in the SAME scope (pipeline-wide / source block / destination block),
+# 1-to-1 maps over two addresses
+MC_SCOPE_MODS = dict(locals_=["l1", "l2"], doms=["d1"], codes=[], maxsrc=0, maxdst=0, maxmod=2, maxvals=1,
+                     maxblocks=0, baremaps=False, maxscopemods=2, sendercap=2, envvars=NO_UPPER_ACE)
+MC_QUICK_ALL = [MC_QUICK, MC_DEFECT, MC_REWRITE, MC_NESTED_RW, MC_TABLES, MC_SCOPE_MODS]
 # exhaustive, thorough: additionally two local parts and two spellings in the rules; two domains; the
 # quick bound with one defect; incomplete configurations inside a reroute
 MC_THOROUGH = MC_QUICK_ALL + [
@@ -95,21 +110,22 @@ MC_THOROUGH = MC_QUICK_ALL + [
          envvars=NO_UPPER_ACE),
     dict(MC_QUICK, maxdefects=1),
     dict(locals_=["l1"], doms=["d1"], maxsrc=0, maxdst=2, maxblocks=3, maxdepth=1, maxdefects=1,
-         envvars=NO_UPPER_ACE),
+         sendercap=2, envvars=NO_UPPER_ACE),
 ]
 # as-is (deviations must be visible to the model)
 MC_ASIS = dict(locals_=["l1"], doms=["d1"], envlocals=["l2"], rulevars=["lower", "ALABEL"],
-               maxsrc=0, maxdst=1, maxblocks=2, maxdefects=1)
+               maxsrc=0, maxdst=1, maxblocks=2, maxdefects=1, tablekinds=["static", "regexp"])
 # the full grammar and alphabet, walked by -simulate
 SIM = dict(locals_=["l1", "l2"], doms=["d1", "d2"], rulevars=ALL_VARS, targets=["T1", "T2", "T3"],
            codes=[0, 550, 451], maxsrc=2, maxdst=2, maxdepth=2, maxmod=3, maxblocks=8, maxrules=2,
            maxkeys=2, maxentries=2, maxvals=2, maxdefects=1, defectodds=3, salts=[0, 1, 2, 3, 4, 5],
-           defaultlast=False, expected=True)
+           defaultlast=False, expected=True, maxscopemods=2, tablekinds=ALL_TABLES)
+SIM_DOMS = [["d1", "d2"], ["d2", "d3"], ["d1", "d3"]]
 
 TRACE_CFG = """SPECIFICATION TSpec
 CONSTANTS
   Locals = {"l1", "l2", "l3"}
-  Doms = {"d1", "d2"}
+  Doms = {"d1", "d2", "d3"}
   EnvLocals = {}
   RuleVars = {"lower"}
   EnvVars = {"lower"}
@@ -129,6 +145,9 @@ CONSTANTS
   Salts = {0}
   DefaultLast = TRUE
   BareMaps = TRUE
+  MaxScopeMods = 1
+  TableKinds = {"static"}
+  SenderCap = 99
   PrintExpected = FALSE
   OpenDevs = %s
 CHECK_DEADLOCK FALSE
@@ -177,7 +196,7 @@ def run(ctx, replay):
     os.environ.setdefault("_JAVA_OPTIONS", "-Xmx4g")
     known = known_entries()
     open_known = [f for f in known if f.get("status", "open") == "open"]
-    open_devs = sorted(set(f["match"]["deviation"] for f in open_known))
+    open_devs = sorted(set(f["match"]["deviation"] for f in open_known if f.get("match", {}).get("deviation")))
 
     binary_box = {}
 
@@ -218,7 +237,8 @@ def run(ctx, replay):
                 "Routing", None, name="sim%d" % k, workers=1, timeout=1500,
                 simulate=(n_sim + par - 1) // par, depth=400,
                 cfg_text=gen_cfg(tail="INVARIANT TheoremsHold\n",
-                                 **dict(SIM, envvars=ALL_VARS if k % 2 == 0 else NO_UPPER_ACE)))
+                                 **dict(SIM, doms=SIM_DOMS[k % 3],
+                                        envvars=ALL_VARS if k % 2 == 0 else NO_UPPER_ACE)))
         with ThreadPoolExecutor(len(bounds) + len(open_devs) + par) as ex:
             f_mc = [ex.submit(mc, k) for k in range(len(bounds))]
             f_as = [(d, ex.submit(asis, d)) for d in open_devs]
@@ -321,7 +341,7 @@ def run(ctx, replay):
     for v, _ in parts:
         verdicts.update(v)
 
-    fid_of = {f["match"]["deviation"]: f for f in open_known}
+    fid_of = {f["match"]["deviation"]: f for f in open_known if f.get("match", {}).get("deviation")}
     ok = asis_only = drift = 0
     preds, obs, known_rows = {}, {}, {}
     for t, recs in sorted(verdicts.items()):
@@ -404,15 +424,17 @@ META = {
                  "the real msgpipeline; recorded rows evaluated by TLC against RoutingTrace.tla",
     "text": "TLC builds every pipeline configuration of the directive grammar inside a small bound (and seeded walks "
             "over the full grammar: source/source_in/default_source, destination/destination_in/default_destination, "
-            "reject, deliver_to 1-2 targets, modify 1-to-N, reroute depth 2; 2x2 addresses x 6 spellings) and checks "
+            "reject, deliver_to 1-2 targets, several modify 1-to-N per scope, reroute depth 2; 2x2 addresses x 6 spellings, domains incl. an IDN label behind an ASCII label) and checks "
             "on each: selected block unique, loadable => decision for every envelope, operational rule satisfies the "
             "declarative property. Every row is loaded with the real msgpipeline.New and every envelope of the sweep is "
             "pushed through Start/AddRcpt/Body/Commit; TLC evaluates the C04 clauses on the recorded outcome.",
-    "note": "Exhaustive only inside small bounds (quick: four bounds - precedence with 1 source-family + 1 destination-family "
-            "block per level; incomplete configurations with destination + destination_in and one defect; one rewrite map "
-            "incl. local-part keys / domain-less values over two domains; two nested 1-to-2 rewrites over three addresses; "
-            "thorough: eight bounds incl. two spellings, two domains, defects inside a reroute); all envelopes of a row go "
-            "through the same loaded pipeline in sequence (history independence of the routing is part of the rule); "
+    "note": "Exhaustive only inside small bounds (quick: six bounds - precedence with 1 source-family + 1 destination-family "
+            "block per level over a multi-label IDN, static and regexp tables; incomplete configurations with destination + "
+            "destination_in and one defect; one rewrite map incl. local-part keys / domain-less values over two domains; two "
+            "nested 1-to-2 rewrites over three addresses; every table module (static, file, regexp with/without replacement, "
+            "scripted table with a failing lookup); two modify directives in one scope; thorough: four more incl. two spellings, "
+            "two domains, defects inside a reroute); all envelopes of a row go through the same loaded pipeline in sequence "
+            "(history independence of the routing is part of the rule); "
             "the full grammar is sampled by seeded TLC simulation (260 configurations quick, 6000 thorough). "
             "Trusted: TLC, harness, Go toolchain.",
     "design_ref": "DESIGN.md section 5 C04",
